@@ -6,6 +6,8 @@ open SH SH.Egress
 structure St where
   c : Cfg
   p : Pool
+  a0 : AddrPool := {}
+  a1 : AddrPool := {}
 
 def b2n (b : Bool) : Nat := if b then 1 else 0
 
@@ -67,7 +69,7 @@ def countEv (evs : List Ev) (f : Ev → Bool) : Nat := (evs.filter f).length
 def step (st : St) (toks : List String) : St × List String :=
   match toks with
   | ["new", n] => match n.toNat? with
-    | some n => ({ c := { bufLen := n }, p := {} }, [])
+    | some n => ({ c := { bufLen := n }, p := {}, a0 := {}, a1 := {} }, [])
     | none => (st, ["bad-op"])
   | ["h", hx] => match parseHex? hx with
     | some b => doOps st [.handle b, .wake false, .wake true]
@@ -98,6 +100,29 @@ def step (st : St) (toks : List String) : St × List String :=
       let (p, evs) := runOps st.c st.p [.report i ok]
       ({ st with p := p }, (if evs.isEmpty then ["report none"] else evs.map evLine) ++ [stLine p])
     | _, _ => (st, ["bad-op"])
+  | ["setpool", i, n] => match parseBit? i, n.toNat? with
+    -- replacePool: a fresh addressPool {addrs = 0..n-1, head = 0}
+    | some i, some n =>
+      let ap : AddrPool := { addrs := List.range n, head := 0 }
+      (if i then { st with a1 := ap } else { st with a0 := ap }, [])
+    | _, _ => (st, ["bad-op"])
+  | ["pick", i, k] => match parseBit? i, k.toNat? with
+    | some i, some k =>
+      let ap := if i then st.a1 else st.a0
+      let res := pickN k ap
+      let ap' := (List.range k).foldl (fun a _ => (pick a).1) ap
+      let show1 : Option Nat → String := fun o => match o with | some x => toString x | none => "x"
+      (if i then { st with a1 := ap' } else { st with a0 := ap' }, [s!"pick {if res.isEmpty then "-" else ",".intercalate (res.map show1)}"])
+    | _, _ => (st, ["bad-op"])
+  | ["reportpush", i, r, hx] =>
+    -- reportWouldBlockIfAny takes the counter atomically (Swap) before it writes; a packet handed in while the report is
+    -- being written is therefore a push AFTER the report step
+    match parseBit? i, (if r = "ok" then some true else if r = "err" then some false else none), parseHex? hx with
+    | some i, some ok, some body =>
+      let (p1, e1) := runOps st.c st.p [.report i ok]
+      let (p2, e2) := runOps st.c p1 [.handle body, .wake false, .wake true]
+      ({ st with p := p2 }, (if e1.isEmpty then ["report none"] else e1.map evLine) ++ e2.map evLine ++ [stLine p2])
+    | _, _, _ => (st, ["bad-op"])
   | ["recon", i] => match parseBit? i with
     | some i => doOps st [.takeRecon i]
     | none => (st, ["bad-op"])
